@@ -233,7 +233,7 @@ class Sched:
             n = max(self.order, key=lambda x: self.prio[x])
         else:
             n = self.rng.choice(self.order)
-        self.switches.append((0, None, n, ""))
+        self.switches.append((0, None, n, "", "first"))
         return n
 
     def _runnable(self):
@@ -254,12 +254,20 @@ class Sched:
             if not finishing:
                 self._park_forever()
             return
+        origin = "finish" if finishing else ("lock" if where.startswith("lock:") else "point")
+        if to is None and self.forced is not None and self._fi < len(self.forced):
+            # replay: hand-offs that do not come from a pre-emption point (a thread blocking on a
+            # simulated lock, a thread finishing) are entries of the recorded switch list too
+            ent = self.forced[self._fi]
+            if (ent[2] if len(ent) > 2 else "point") == origin and ent[0] == self.steps:
+                self._fi += 1
+                to = ent[1]
         if to is None or to not in cands:
             if self.strategy["kind"] == "pct":
                 to = max(cands, key=lambda x: self.prio[x])
             else:
                 to = self.rng.choice(cands)
-        self.switches.append((self.steps, t["name"], to, where))
+        self.switches.append((self.steps, t["name"], to, where, origin))
         self.current = to
         self.threads[to]["evt"].set()
         if not finishing:
@@ -316,8 +324,9 @@ class Sched:
             self.shared_touch.update(("%s:%s:%s;" % (me["name"], os.path.basename(frame.f_code.co_filename), frame.f_lineno)).encode())
         # ---- replay
         if self.forced is not None:
-            if self._fi < len(self.forced) and self.forced[self._fi][0] == self.steps:
-                to = self.forced[self._fi][1]
+            ent = self.forced[self._fi] if self._fi < len(self.forced) else None
+            if ent is not None and ent[0] == self.steps and (ent[2] if len(ent) > 2 else "point") == "point":
+                to = ent[1]
                 self._fi += 1
                 if to != me["name"]:
                     self._handoff(me, to=to, where=self._where(frame))
@@ -345,7 +354,7 @@ class Sched:
     # ------------------------------------------------------------ results
     def schedule(self):
         """The executed switch list in replayable form."""
-        return [(s, to) for (s, _frm, to, _w) in self.switches]
+        return [(s, to, o) for (s, _frm, to, _w, o) in self.switches]
 
     def interleaving_digest(self):
         h = hashlib.sha256()
